@@ -38,7 +38,7 @@ TRUSTED = ["keccak256 (pycryptodome) and ed25519 arithmetic (harness/ecref.py) a
            "coq/Model/EdLib.v"]
 ASSUMPTIONS = ["keccak output length 32 bytes", "ed25519 points form a Z-module with l*G = 0 (hypotheses)",
                "point encoding is decodable: pdec (penc P) = Some P"]
-BUDGET = {"quick": 150, "thorough": 1500}
+BUDGET = {"quick": 150, "thorough": 1250}
 
 
 def keccak256(b):
